@@ -2,6 +2,7 @@
   C11 — test cases are isolated.
 -/
 import RapidProofs.Shrink
+import RapidModel.Generated.CallOrders
 
 namespace Rapid.C11
 
@@ -34,5 +35,17 @@ example : (checkOnce (.errorf "e" (Prog.skip "s")) (.buf []) TS.fresh).err = som
 /-- a failure raised from a cleanup callback falsifies THIS test case -/
 example : (checkOnce (.cleanup (.errorf "c" .done) (.ret .nil)) (.buf []) TS.fresh).err = some (.stop "c" sitePending) := by
   decide
+
+/-- `runProp` re-read from /repo statement by statement: whatever ended the test case, the record of a skipping cleanup is *taken* (cleared) before the next test case runs on the reused `*T`; it makes the test case invalid only if nothing else ended it (S194 left it behind when the body had panicked) -/
+theorem runProp_body_source : Rapid.Generated.body_runProp =
+    ["{", "if t.tbLog {", "t.tb.Helper()", "}", "defer func() {", "err = panicToError(recover(), 3)",
+     "if id := t.takeSkipped(); id != nil && err == nil {", "err = &testError{data: *id}", "}", "}()",
+     "defer t.cleanup()", "prop(t)", "return nil", "}"] := by rfl
+
+/-- `checkOnce` re-read from /repo statement by statement: `runProp`, then the pending non-fatal failure, then `resetFailed` on the reused `*T` -/
+theorem checkOnce_body_source : Rapid.Generated.body_checkOnce =
+    ["{", "if t.tbLog {", "t.tb.Helper()", "}", "err := runProp(t, prop)", "if err == nil || err.isInvalidData() {",
+     "if failed := pendingFailure(t); failed != nil {", "err = failed", "}", "}", "t.resetFailed()", "return err",
+     "}"] := by rfl
 
 end Rapid.C11
